@@ -622,6 +622,62 @@ func run(R *res.Result, c *caseJ) outcome {
 	return outcome{"(" + txt + ")", nt, oa, ob, ab, ba}
 }
 
+// ---------- probes outside the modelled domain: what the real code does there (recorded as notes) ----------
+func probes(R *res.Result) {
+	stores := []storeJ{{ID: 1, Labels: [][2]string{{"zone", "z1"}}}, {ID: 2, Labels: [][2]string{{"zone", "z2"}}}}
+	reg := regionJ{Leader: 1, Peers: []peerJ{{ID: 1, Store: 1}, {ID: 2, Store: 2}}}
+	// (1) negative Count (rejected by adjustRule: a RuleManager never serves it)
+	func() {
+		fit := placement.FitRegion(mkStores(stores), mkRegion(reg), mkRules([]ruleJ{{Role: "voter", Count: -1}}))
+		nilFit := len(fit.RuleFits) == 1 && fit.RuleFits[0] == nil
+		panicked := false
+		func() {
+			defer func() { panicked = recover() != nil }()
+			fit.IsSatisfied()
+		}()
+		R.Count(fmt.Sprintf("probe:negative-count:nil-rulefit=%v,orphans=%d,is-satisfied-panics=%v", nilFit, len(fit.OrphanPeers), panicked))
+		R.Notes = append(R.Notes, fmt.Sprintf("probe negative Count (-1): RuleFits[0]==nil %v, OrphanPeers %d of 2 peers, IsSatisfied panics %v — excluded by adjustRule (obligation count_guard_present)", nilFit, len(fit.OrphanPeers), panicked))
+	}()
+	// (2) two peers with the same id: sort.Slice may leave them in either order; the answer is a valid, optimal fit of that order
+	func() {
+		dup := regionJ{Leader: 7, Peers: []peerJ{{ID: 7, Store: 1}, {ID: 7, Store: 2, Role: 1}, {ID: 3, Store: 2}}}
+		fit := placement.FitRegion(mkStores(stores), mkRegion(dup), mkRules([]ruleJ{{Role: "voter", Count: 2, Locs: []string{"zone"}}}))
+		n := 0
+		for _, rf := range fit.RuleFits {
+			n += len(rf.Peers)
+		}
+		R.Count(fmt.Sprintf("probe:duplicate-peer-id:placed=%d,orphans=%d", n, len(fit.OrphanPeers)))
+	}()
+	// (3) 9 location-label levels: 100^8 > 2^53, the float64 sum drops the lowest level
+	func() {
+		lv := func(vals ...string) [][2]string {
+			var out [][2]string
+			for i, v := range vals {
+				out = append(out, [2]string{fmt.Sprintf("l%d", i), v})
+			}
+			return out
+		}
+		var locs []string
+		for i := 0; i < 9; i++ {
+			locs = append(locs, fmt.Sprintf("l%d", i))
+		}
+		st := []storeJ{
+			{ID: 1, Labels: lv("a", "x", "x", "x", "x", "x", "x", "x", "p")},
+			{ID: 2, Labels: lv("b", "x", "x", "x", "x", "x", "x", "x", "p")},
+			{ID: 3, Labels: lv("a", "x", "x", "x", "x", "x", "x", "x", "p")}, // same place as store 1
+			{ID: 4, Labels: lv("a", "x", "x", "x", "x", "x", "x", "x", "q")}, // differs from store 1 at the lowest level
+		}
+		rg := regionJ{Leader: 1, Peers: []peerJ{{ID: 1, Store: 1}, {ID: 2, Store: 2}, {ID: 3, Store: 3}, {ID: 4, Store: 4}}}
+		fit := placement.FitRegion(mkStores(st), mkRegion(rg), mkRules([]ruleJ{{Role: "voter", Count: 3, Locs: locs}}))
+		var got []uint64
+		for _, p := range fit.RuleFits[0].Peers {
+			got = append(got, p.GetId())
+		}
+		R.Count(fmt.Sprintf("probe:nine-label-levels:chosen=%v,score=%.0f", got, fit.RuleFits[0].IsolationScore))
+		R.Notes = append(R.Notes, fmt.Sprintf("probe 9 location labels: FitRegion chose peers %v with float score %.0f; exact scores: {1,2,3} = 2*100^8, {1,2,4} = 2*100^8+1 (+1 for the pair 1/4 at the lowest level) — beyond 2^53 the low level is lost (bound: C12_isolation_score_exact_in_float64)", got, fit.RuleFits[0].IsolationScore))
+	}()
+}
+
 func main() {
 	seed := flag.Uint64("seed", 1, "")
 	n := flag.Int("n", 2000, "number of generated cases")
@@ -643,6 +699,7 @@ func main() {
 		Type:   "case",
 		Footer: "Definition M := Eval vm_compute in map fst (mismatches cases).\nDefinition D := Eval vm_compute in first_detail cases.\nDefinition V := Eval vm_compute in monitor_fails cases.\nPrint M. Print D. Print V.\n"}
 
+	probes(R)
 	var all []caseJ
 	emit := func(c caseJ) outcome {
 		o := run(R, &c)
